@@ -99,9 +99,38 @@ fn judge_binop<A: Subject + AllPairs>(ctx: &mut Ctx, case: &Case, wl: &str) {
     ctx.type_pairs.insert((a.ty as u8, b.ty as u8));
     carry_buckets(ctx, &a, &b, op);
     let rel = len_rel(a.bits.len(), b.bits.len(), TYPE_FIXED_CAP[a.ty]);
-    for (form, r) in run.results {
+    // C04's own hidden-state clause ("no bit of b at an index >= n influences the result or any later observation of
+    // it"): the same operation with b cut down to n bits must give a result that NO observer or later operation can
+    // tell from this one. Both results come from the same `a` through the same code, so nothing but b's high bits can
+    // make them differ.
+    let cut: Option<BinRun<A>> = if ctx.prop == "C04" && b.bits.len() > a.bits.len() && b.bits[a.bits.len()..].iter().any(|x| *x) {
+        let mut bt = b.clone();
+        bt.bits.truncate(a.bits.len());
+        bt.via = crate::spec::Via::Set;
+        Some(run_bin::<A>(&a, &bt, op, &forms, false))
+    } else {
+        None
+    };
+    for (fi, (form, r)) in run.results.into_iter().enumerate() {
         let s = bits_sig(&a, &b, op, form);
         ctx.eval(s, nontrivial(&a.bits, &b.bits));
+        if let (Some(c), Ok(res), Some(e)) = (&cut, &r, &expected) {
+            if let Some((_, Ok(res_cut))) = c.results.get(fi) {
+                ctx.bucket("high-bits-metamorphic");
+                let fails = crate::battery::battery_scoped(ctx, res, e, s % 7 == 0, None, Some(res_cut));
+                if let Some(f) = fails.first() {
+                    ctx.violation(
+                        &format!("{}:high-bits-of-b-observable", op.name()),
+                        &format!("{}|{}|rhs={}", type_class(a.ty), op.name(), type_class(b.ty)),
+                        &binop_case(&a, &b, op, Some(form)).enc(),
+                        format!(
+                            "{} {} {} (form {}): the result is distinguishable from the result of the same operation with b cut to {} bits: {} : {}",
+                            a.describe(), op.name(), b.describe(), form.name(), a.bits.len(), f.item, f.detail.replace("fresh twin", "result with b cut")
+                        ),
+                    );
+                }
+            }
+        }
         let sig = format!("{}|{}|rhs={}|{}", type_class(a.ty), op.name(), type_class(b.ty), rel);
         let cs = || binop_case(&a, &b, op, Some(form)).enc();
         ctx.sample(wl, cs);
@@ -339,34 +368,6 @@ fn judge_forms<A: Subject + AllPairs>(ctx: &mut Ctx, case: &Case, wl: &str) {
     if outs.iter().all(|o| o.1.is_none()) {
         ctx.bucket("forms:all-panicked");
     }
-    // "identical result": the vectors returned by the different forms must also be indistinguishable from one another
-    // through the type's own observers (a form that leaves junk beyond len differs from one that does not)
-    let oks: Vec<(Form, &A)> = run.results.iter().filter_map(|(f, r)| r.as_ref().ok().map(|v| (*f, v))).collect();
-    if oks.len() > 1 {
-        let (f0, r0) = oks[0];
-        if let Ok(b0) = guarded(|| crate::battery::basic(r0)) {
-            for (f, r) in &oks[1..] {
-                let same = guarded(|| (crate::battery::basic(*r) == b0, *r == r0, r0 == *r, crate::battery::hash_stream(*r) == crate::battery::hash_stream(r0)));
-                ctx.observer_calls += 8;
-                match same {
-                    Ok((true, true, true, true)) => {}
-                    Ok(t) => {
-                        ctx.violation(
-                            "forms-results-distinguishable",
-                            &sig,
-                            &cs(),
-                            format!(
-                                "{} {} {}: the results of forms {} and {} have the same visible bits but are distinguishable (observers equal, ==, reversed ==, hash stream) = {:?}",
-                                a.describe(), op.name(), b.describe(), f0.name(), f.name(), t
-                            ),
-                        );
-                        break;
-                    }
-                    Err(_) => {}
-                }
-            }
-        }
-    }
     if let Some(d) = run.a_changed {
         ctx.violation("operand-changed:lhs", &sig, &cs(), format!("left operand of {} changed: {}", op.name(), d));
     }
@@ -447,16 +448,12 @@ fn judge_forms_shift<A: Subject + AllPairs>(ctx: &mut Ctx, case: &Case, wl: &str
     let (av, _) = build::<A>(&a);
     let before = snap(&av);
     let mut outs = vec![];
-    let mut kept: Vec<(Form, A)> = vec![];
     for f in ALL_FORMS {
         let r = guarded(|| A::shift(&av, left, f, k));
         outs.push((f, match &r {
             Ok(v) => guarded(|| (v.len(), crate::spec::read_bits(v))).ok(),
             Err(_) => None,
         }));
-        if let Ok(v) = r {
-            kept.push((f, v));
-        }
     }
     let s = sig_hash(&[a.ty as u64, 2021, k.ty() as u64, left as u64, a.bits.len() as u64, model::hash_bits(&a.bits), k.val() as u64, (k.val() >> 64) as u64]);
     ctx.eval(s, !a.bits.is_empty() && k.val() > 0);
@@ -482,27 +479,6 @@ fn judge_forms_shift<A: Subject + AllPairs>(ctx: &mut Ctx, case: &Case, wl: &str
                 ),
             );
             break;
-        }
-    }
-    if kept.len() > 1 {
-        let (f0, r0) = (&kept[0].0, &kept[0].1);
-        if let Ok(b0) = guarded(|| crate::battery::basic(r0)) {
-            for (f, r) in &kept[1..] {
-                let same = guarded(|| (crate::battery::basic(r) == b0, r == r0, r0 == r, crate::battery::hash_stream(r) == crate::battery::hash_stream(r0)));
-                ctx.observer_calls += 8;
-                if let Ok(t) = same {
-                    if t != (true, true, true, true) {
-                        ctx.violation(
-                            "shift-forms-results-distinguishable",
-                            &sig,
-                            &cs(),
-                            format!("{} {} {}: the results of forms {} and {} have the same visible bits but are distinguishable (observers equal, ==, reversed ==, hash stream) = {:?}",
-                                a.describe(), if left { "<<" } else { ">>" }, k.enc(), f0.name(), f.name(), t),
-                        );
-                        break;
-                    }
-                }
-            }
         }
     }
     if let (Ok(b), Ok(af)) = (&before, &snap(&av)) {
